@@ -825,14 +825,17 @@ def diff_field(inp, back, where, out):
     typ = inp.get("type") or next((k for k in ("enum", "$ref", "allOf", "anyOf", "oneOf", "not") if k in inp), "object")
     if typ == "object":
         typ = "object" if "properties" in inp else "map"
-    if typ == "object" and ("properties" not in back or set(back["properties"]) != set(inp.get("properties", {}))):
+    if typ == "object":
         names = list(inp.get("properties", {}))
         if len(names) == 1 and set(inp.get("required", names)) == set(names) and inp.get("additionalProperties", True) is False:
+            # this shape is always collapsed into its property's schema (which may itself be an object with a
+            # property of the same name): every difference here has that root cause
             out.append(("C09/back/object/single-required-closed-collapsed",
                         "nested object %r mapped back as %r" % (inp, back)))
-        else:
+            return
+        if "properties" not in back or set(back["properties"]) != set(names):
             out.append(("C09/back/object/shape", "nested object %r mapped back as %r" % (inp, back)))
-        return
+            return
     for k in sorted(set(inp) | set(back)):
         a, b = inp.get(k, None), back.get(k, None)
         if k in inp and k in back and a == b:
@@ -944,7 +947,7 @@ def top_diff(want, got, out):
     names = list(want.get("properties", {}))
     collapsed_shape = (len(names) == 1 and set(want.get("required", names)) == set(names)
                        and want.get("additionalProperties") is False)
-    if collapsed_shape and (got.get("type") != "object" or set(got.get("properties", {})) != set(names)):
+    if collapsed_shape:
         out.append(("C09/back/class/single-required-closed-collapsed",
                     "class schema %r mapped back as %r" % (want, got)))
         return
